@@ -660,6 +660,25 @@ def n4(prog: Program, chk: Check) -> None:
                         "the tolerance is the constructor argument, unchanged", st)
 
 
+def n5(prog: Program, chk: Check) -> None:
+    chk.rule("N5", "the coefficients of the discretised influence functional are the double "
+             "integrals of the bath autocorrelation function over exactly the cells N1 asks for: "
+             "the closed form of a spectral-density bath evaluates the double antiderivative eta "
+             "at the corners of the cell (affine forms of time_1, time_2, delta, combined by "
+             "inclusion-exclusion) - not at rounded, clipped or otherwise altered times; an "
+             "absolute alteration of a time is invisible for dt of order one and destroys the "
+             "coefficients when the same model is written in units in which times are small",
+             floor=3)
+    from rules import c12
+    sd = prog.unit("bath_correlations:CustomSD.correlation_2d_integral")
+    chk.saw(sd)
+    for (shape, got, want, region, st, bad_args, tri) in c12.cell_closed_form_checks(prog):
+        ok = got == want
+        chk.add("N5", sd, f"shape {shape!r}: {c12._fmt(got)}", ok,
+                f"= double antiderivative over {region}" if ok else
+                c12._l1_reason(bad_args, region, want), st)
+
+
 def run(prog: Program, chk: Check) -> None:
     chk.explanation = (
         "C01 is claimed in part. The rules decide the part of 'the memory settings have exactly "
@@ -674,7 +693,8 @@ def run(prog: Program, chk: Check) -> None:
         "Equality of the returned states with the analytic independent-boson solution or with "
         "the explicit finite-mode evolution, and the size of the deviation, are numerical "
         "statements over an unbounded parameter space and are not decided by this check. "
-        "The double-integral kernels are covered by C12 (L rules), the exponent of the "
+        "The integrands of the double-integral kernels are covered by C12 (L rules; N5 reuses "
+        "the corner rule L1), the exponent of the "
         "influence functional by C04 (D4), the TEMPO / PT-TEMPO wiring by C02.")
     chk.call(n1, prog, chk)
     chk.rule("N2", "memory window: TEMPO stores influences 0..dkmax (only 0 for full memory), "
@@ -687,3 +707,4 @@ def run(prog: Program, chk: Check) -> None:
     chk.call(n2_pt, prog, chk)
     chk.call(n3, prog, chk)
     chk.call(n4, prog, chk)
+    chk.call(n5, prog, chk)
